@@ -44,6 +44,8 @@ theorem copySlots_ext (rec : CopyFn) (hr : RecExt rec) :
       | fuel => cases e
       | notImpl => cases e
       | unknown => cases e
+      | value => cases e
+      | index => cases e
 
 theorem copyValues_ext (rec : CopyFn) (hr : RecExt rec) :
     ∀ (fs : Slots) (h h1 : Heap) (fs1 : Slots), copyValues rec h fs = .ok (h1, fs1) → Ext h h1 := by
@@ -93,6 +95,8 @@ theorem copySlots_no_attr (rec : CopyFn) : ∀ (fs : Slots) (h : Heap), copySlot
       | fuel => cases e
       | notImpl => cases e
       | unknown => cases e
+      | value => cases e
+      | index => cases e
 
 /-- what the generic phase leaves in attribute `x` -/
 theorem copySlots_lookup (rec : CopyFn) (hr : RecExt rec) :
@@ -149,6 +153,8 @@ theorem copySlots_lookup (rec : CopyFn) (hr : RecExt rec) :
       | fuel => cases e
       | notImpl => cases e
       | unknown => cases e
+      | value => cases e
+      | index => cases e
 
 /-! ### `copy` on leaves -/
 
